@@ -260,6 +260,7 @@ pub fn run(ctx: &Ctx) -> PropResult {
             judge_datetime(rec, inner, rng.range_i128(0, D - 1), gen_offset(rng), op, n);
         }
     }));
+    wls.push(Workload::cases("api_walks", ctx.n(30_000, 1_500_000), |rec, _, rng| super::walk::walk(rec, rng, "C05", super::walk::Family::Months)));
     let out = run_workloads(ctx, wls);
     let mut meta = PropMeta::default();
     meta.rule = format!(
@@ -270,7 +271,7 @@ pub fn run(ctx: &Ctx) -> PropResult {
     meta.required_bins = vec![
         "clamp/none", "clamp/to28", "clamp/to29", "clamp/to30", "unrepresentable", "cross/BC→AD", "cross/AD→BC", "cross/none-BC", "cross/none-AD",
         "dom/29", "dom/30", "dom/31", "op/add_months", "op/sub_months", "op/add_years", "op/sub_years", "N>=2^31",
-        "datetime/offset0", "datetime/offset-moves-date", "datetime/offset-same-date",
+        "datetime/offset0", "datetime/offset-moves-date", "datetime/offset-same-date", "walk/with-judged-steps",
     ];
     meta.assumptions = vec!["calendar model as in C01".into()];
     Ok((meta, out))
